@@ -9,6 +9,7 @@ function, exactly as many hits on its body line as it was executed; decorating a
 import json
 
 import wraplib
+from common import run_worker
 
 LEVEL = 'proof'
 
@@ -102,8 +103,18 @@ def run(ctx):
                     ctx.broken.append(('K16 correspondence', 'tower %s p=%d: %s' % (' '.join(c['tower']), c['p'], '; '.join(diffs)[:700])))
         if len(c['tower']) > 4:
             nontrivial.add(json.dumps(c, sort_keys=True))
+    # the same decorated text in several files (a copied / vendored module): every copy is profiled for itself
+    copies = [{'copies': 2, 'calls': [3, 5]}, {'copies': 3, 'calls': [1, 2, 4]}, {'copies': 2, 'calls': [2, 0]}]
+    for c, r in zip(copies, run_worker(build, 'wrap_worker.py', {'copies': copies})['copies']):
+        if 'error' in r:
+            ctx.broken.append(('harness', r['error'][-1500:]))
+        elif {k: v for k, v in r['executions'].items() if v} != r['reported'] or r['count_after'] != 0:
+            diff = {k: [r['executions'].get(k, 0), r['reported'].get(k, 0)] for k in set(r['executions']) | set(r['reported']) if r['executions'].get(k, 0) != r['reported'].get(k, 0)}
+            ctx.fail('decorated callables of a copied module are not profiled exactly, each copy for itself',
+                     {'finding_class': None, 'copies_case': c, '[executions, reported hits] where they differ': diff, 'enable_count_after': r['count_after']})
+    ctx.coverage['copied_module_cases'] = len(copies)
     ctx.coverage.update({
-        'evaluations': len(towers), 'distinct_nontrivial': len(nontrivial),
+        'evaluations': len(towers) + len(copies), 'distinct_nontrivial': len(nontrivial),
         'rule': 'all 8 property shapes (gaps included), every single-layer kind x {plain, generator, coroutine, async generator} function, callable '
                 'instances, + random towers of depth <= 4 with layers pre-wrapped by the same / other profilers; each used through its natural access '
                 '(call / get / set / delete) undecorated, decorated and decorated twice; non-trivial = at least two layers',
